@@ -87,10 +87,16 @@ def requeueClass (rep : Report) : Option Nat :=
 
 /-! ### weather envelope -/
 
+/-- the weather values at the site's cell (hour `Method.HOUR`).  A value can be *missing* (NaN in the
+weather file: merged / cropped reanalysis files carry gaps); the number stored next to a set
+`…Missing` flag is irrelevant -/
 structure Wx where
   temp : Int
   wind : Int
   precip : Int
+  tempMissing : Bool := false
+  windMissing : Bool := false
+  precipMissing : Bool := false
   deriving DecidableEq, Repr, Inhabited
 
 structure Envelope where
@@ -104,9 +110,10 @@ structure Envelope where
 
 /-- `Method.check_weather` on the values of the site's weather cell -/
 def checkWeather (e : Envelope) (w : Wx) : Bool :=
-  let bTemp := decide (e.tempLo ≤ w.temp ∧ w.temp ≤ e.tempHi)
-  let bWind := decide (e.windLo ≤ w.wind ∧ w.wind ≤ e.windHi)
-  let bPrecip := decide (e.precipLo ≤ w.precip ∧ w.precip ≤ e.precipHi)
+  -- `lo <= value <= hi` is False for a NaN value: a missing value is inside no envelope
+  let bTemp := !w.tempMissing && decide (e.tempLo ≤ w.temp ∧ w.temp ≤ e.tempHi)
+  let bWind := !w.windMissing && decide (e.windLo ≤ w.wind ∧ w.wind ≤ e.windHi)
+  let bPrecip := !w.precipMissing && decide (e.precipLo ≤ w.precip ∧ w.precip ≤ e.precipHi)
   bPrecip && bWind && bTemp
 
 /-! ### the day -/
